@@ -18,6 +18,9 @@ class Boom(Exception):
     pass
 
 
+ROOT_CAUSE = ValueError('the root cause of every Boom raised by the memoized function')
+
+
 class BadRepr(object):
     """an argument whose repr() raises something that is not a TypeError: string / pickle(repr) / digest keymaps cannot build a key"""
     def __init__(self, n): self.n = n
@@ -208,7 +211,7 @@ def fun(x):
     if isinstance(xx, str): xx = int(xx[-2:])          # long-argument stratum: the argument number is in the last two characters
     _CUR['log'].append(xx)
     if xx in _CUR['keyerr']: raise KeyError(xx)
-    if xx in _CUR['raising']: raise Boom(xx)
+    if xx in _CUR['raising']: raise Boom(xx) from ROOT_CAUSE        # (explicitly chained: what arrives must still say so)
     return value_of(xx)
 
 
@@ -444,7 +447,10 @@ class Runner:
                 try:
                     return {'ret': self.V(f(*args))}
                 except Exception as e:
-                    return {'exc': exc_name(e)}
+                    o = {'exc': exc_name(e)}
+                    if isinstance(e, Boom) and not (e.__cause__ is ROOT_CAUSE and e.__suppress_context__ is True and isinstance(e.args[0], int)):
+                        o['altered'] = 'cause=%r suppress_context=%r args=%r' % (e.__cause__, e.__suppress_context__, e.args)
+                    return o
             try:
                 if getattr(self, 'after_raise', False) and 'sql' not in self.cfg['backend'] and _BLOCKED[0] < 3:
                     # the call right after one that raised is made from ANOTHER thread: whatever the raising call still holds
